@@ -1204,6 +1204,9 @@ public:
 
     // Assign ghost variables to ref
     ghost_variables_t ref_gvars = get_or_insert_gvars(ref);
+    // ref holds a fresh address: forget whatever was known about the
+    // address previously held by the variable (e.g., being null).
+    m_base_dom -= ref_gvars.get_var();
 
     // initialize ghost variables
     if (ref_gvars.has_offset_and_size()) {
